@@ -78,6 +78,25 @@ var c09Micro = []string{
 	"a = 1\n\n\n\nb = 2\n", "# lead\na = 1\n", "/* lead */ a = 1\n", "a = 1 /* trail */\n", "b { # c\n}\n", "b {\n # only comment\n}\n", "a = x /*c*/ . /*d*/ y\n", "a = x.0 + y.0\n", "a = x.0[1]\n",
 }
 
+func init() {
+	// comments that end the file (no final newline) and end in blanks: the blanks
+	// are part of the comment token
+	c09Micro = append(c09Micro, "a = 1 # c  ", "a = 1 // c \t ", "a = 1\n# keep two blanks  ", "# only  ", "b {\n}\n// end \t", "a = 1 /* c */  ", "a = 1  ", "a = 1 # c  \n")
+	// single tokens longer than any buffer an implementation is likely to use
+	for _, n := range []int{300, 520, 1100, 4200, 9000} {
+		long := strings.Repeat("abcdefghij", n/10)
+		c09Micro = append(c09Micro,
+			"k = 1\nkey = \""+long+"\"\nz = 2\n",
+			"k = 1 # "+long+"\nz = 2\n",
+			"k = 1\n/* "+long+" */\nz = 2\n",
+			"k = 1\n"+long+" = 2\nz = 3\n",
+			"k = 1\nh = <<EOT\n"+long+"\n  ${k} "+long+"\nEOT\nz = 2\n",
+			"k = 1\nn = 1"+strings.Repeat("0123456789", n/10)+"\nz = 2\n",
+			"k = [\""+long+"\", \""+long+"\"]\nblk \""+long+"\" {\n  a = 1\n}\n",
+		)
+	}
+}
+
 func c09Source(c *core.Case) ([]byte, *gen.Scope) {
 	r := c.Rng
 	if r.Intn(5) == 0 {
